@@ -19,6 +19,8 @@ def gen_cases(rng, tier):
              "pipe": ["SINGLEUTUBE", "DOUBLEUTUBEPARALLEL", "COAXIAL", "DOUBLEUTUBESERIES"][k % 4], "flow": rng.choice([["BOREHOLE", 0.5], ["SYSTEM", 1.2], ["BOREHOLE", 0.2]]),
              "method": "HYBRID" if k % 3 != 2 else "HOURLY", "ugt": rng.choice([18.3, 10.0, 12.5]), "k": rng.choice([2.0, 1.4, 3.1])}
         c["steps"] = 45 if c["method"] == "HYBRID" else 60
+        if k % 2 == 1:
+            c["earlier_heights"] = [rng.choice([60.0, 150.0, 135.0])] + ([rng.choice([75.0, 120.0])] if k % 4 == 1 else [])     # an object that was simulated at other heights before
         if c["method"] == "HOURLY":
             c["months"] = 12
         cs.append(c)
@@ -40,7 +42,7 @@ def oracle(chk, c, o):
         s = sum((q[k + 1] - q[k]) * o["K"][i - 1][k] for k in range(i))
         want = pr["Tg"] + s / (pr["two_pi_k"] * pr["H"] * pr["nbh"]) + q[i] * pr["Rb"] / (pr["H"] * pr["nbh"]) - q[i] / (2 * pr["mdot"] * pr["cp"] * pr["nbh"])
         n += 1
-        if abs(want - o["hp_eft"][i - 1]) > 1e-9 * max(1.0, abs(want)):
+        if not (abs(want - o["hp_eft"][i - 1]) <= 1e-9 * max(1.0, abs(want))):
             chk.violation("simulate", c, {"step": i, "hp_eft": o["hp_eft"][i - 1], "formula": want}, "EFT at every step equals the documented superposition of load steps")
             return n
     # hourly method beyond the first year: the load sequence itself, and the formula at steps around the year boundary
@@ -109,7 +111,7 @@ def run(chk):
     if all(m.get("ok") for m in ms):
         Tg = ms[0]["params"]["Tg"]
         b0 = ms[0]["hp_eft"]
-        if any(abs(x - Tg) > 1e-12 for x in ms[1]["hp_eft"]):
+        if any(not (abs(x - Tg) <= 1e-12) for x in ms[1]["hp_eft"]):
             chk.violation("simulate-meta", meta[1], {"hp_eft": ms[1]["hp_eft"][:5]}, f"zero load returns exactly the ground temperature {Tg}")
         for x0, x2 in zip(b0, ms[2]["hp_eft"]):
             if abs((x2 - Tg) - 2.5 * (x0 - Tg)) > 1e-9 * max(1.0, abs(x0 - Tg)):
